@@ -83,13 +83,30 @@ func genGroupCase(t *rapid.T, withID bool) groupCase {
 	wide := !filled && rapid.IntRange(0, 11).Draw(t, "widekeys") == 0
 	var wideKeys []string
 	if wide {
-		nw := rapid.IntRange(9, 11).Draw(t, "nwide")
+		nw := rapid.SampledFrom([]int{9, 10, 11, 9, 10, 11, 17, 33}).Draw(t, "nwide")
+		// of one type (a key made of bool, or enum, columns only may be packed into a word) or of all types in turn
+		wkind := rapid.SampledFrom([]hx.Kind{hx.KInt, hx.KBool, hx.KEnum, hx.KString, hx.KFloat, 255}).Draw(t, "widekind")
 		var cols []hx.Col
 		for j := 0; j < nw; j++ {
-			c := hx.Col{Name: fmt.Sprintf("w%d", j), Kind: hx.KInt, I: make([]int, base.N())}
-			for r := range c.I {
-				if rapid.IntRange(0, 15).Draw(t, "wcell") == 0 {
-					c.I[r] = 1
+			k := wkind
+			if k == 255 {
+				k = []hx.Kind{hx.KInt, hx.KBool, hx.KEnum, hx.KString, hx.KFloat}[j%5]
+			}
+			c := hx.Col{Name: fmt.Sprintf("w%d", j), Kind: k}
+			if k == hx.KEnum {
+				c.Enum = []string{"n", "y"}
+			}
+			for r := 0; r < base.N(); r++ {
+				one := rapid.IntRange(0, 15).Draw(t, "wcell") == 0
+				switch k {
+				case hx.KInt:
+					c.I = append(c.I, map[bool]int{false: 0, true: 1}[one])
+				case hx.KBool:
+					c.B = append(c.B, one)
+				case hx.KFloat:
+					c.F = append(c.F, map[bool]float64{false: 0, true: 1.5}[one])
+				default:
+					c.S = append(c.S, hx.Sp(map[bool]string{false: "n", true: "y"}[one]))
 				}
 			}
 			cols = append(cols, c)
